@@ -22,6 +22,7 @@ pub mod c17;
 pub mod c18;
 pub mod c19;
 pub mod c20;
+pub mod sanit;
 pub mod util;
 
 pub fn run(c: &mut Ctx) -> bool {
@@ -46,6 +47,8 @@ pub fn run(c: &mut Ctx) -> bool {
         "C18" => c18::run(c),
         "C19" => c19::run(c),
         "C20" => c20::run(c),
+        "SAN-SCALAR" => sanit::run_scalar(c),
+        "SAN-DECODE" => sanit::run_decode_sample(c),
         "selfcheck" => selfcheck(c),
         _ => return false,
     }
